@@ -68,8 +68,8 @@ def pReq (t : Tok) : Option (Req × Tok) :=
            | some nu =>
              (match pUsages nu t with
               | some (us, t) =>
-                some ({ supi := supi, nf := nfv, cid := cid, seq := seq, uri := uri = 1, one := one = 1,
-                        trigs := trigs, usages := us }, t)
+                some ({ supi := supi, nf := nfv, cid := cid, seq := seq, uri := uri = 1, one := one % 2 = 1,
+                        trigs := trigs, usages := us, bad := one / 2 % 4 ≠ 0 }, t)
               | none => none)
            | none => none)
         | _ => none)
